@@ -162,6 +162,50 @@ class Program:
                     if lf is not None and lf[0] == "param" and lf[1] == 2:
                         self.setters[sk] = (key,)
 
+    def wrappers(self):
+        """Private straight-line functions without side effects whose result is one expression over their
+        parameters (`fn entries_for(&self, to, next) -> .. { self.raft_log.entries(next, self.max, ..) }`):
+        {short path: result expression in terms of ('param', i)}. Used by rules as a fallback when a value
+        shape is hidden behind such a helper (extract-function refactorings)."""
+        w = getattr(self, "_wrappers", None)
+        if w is not None:
+            return w
+        w = {}
+        for k, f in self.facts.fns.items():
+            if f.is_closure or f.crate != "raft" or f.vis == "Public" or f.impl_trait:
+                continue
+            a = self.an[k]
+            body = f.body
+            rets = [bi for bi in a.reach if body.blocks[bi]["term"]["k"] == "return"]
+            sw = [bi for bi in a.reach if body.blocks[bi]["term"]["k"] in ("switch", "assert")]
+            if len(rets) != 1 or sw or body.local_ty(0) == "()":
+                continue
+            if any(st["k"] == "assign" and st["place"]["p"] and st["place"]["p"][0] == "*" for bi in a.reach for st in body.blocks[bi]["stmts"]):
+                continue
+            if self.direct_mod.get(k):
+                continue
+            e = a.expr_local(0, (rets[0], "term"))
+            from .an import walk
+            if any(x[0] in ("local", "phi", "opaque") for x in walk(e)):
+                continue
+            w[strip_generics(k)] = e
+        self._wrappers = w
+        return w
+
+    def inline_wrappers(self, e, depth=2):
+        from .pat import subst_params
+        if not isinstance(e, tuple) or depth < 0:
+            return e
+        if e and e[0] == "call":
+            args = tuple(self.inline_wrappers(x, depth) for x in e[2])
+            w = self.wrappers().get(e[1])
+            if w is not None:
+                return self.inline_wrappers(subst_params(w, list(args)), depth - 1)
+            return (e[0], e[1], args) + tuple(e[3:])
+        if isinstance(e, frozenset):
+            return e
+        return tuple(self.inline_wrappers(x, depth) if isinstance(x, tuple) else x for x in e)
+
     def simplify_call(self, e, fr=None):
         path = e[1]
         args = e[2]
